@@ -290,12 +290,43 @@ func (c *Ctx) keepAliveValue() {
 		c.R.Bad(ruleP8, "accept:service-keepalive-from-CONNECT", c.P.Pos(fn.Pos()), "the accept function does not store a keep-alive value in the service")
 		return
 	}
-	okv := false
-	if cv, ok := kaStore.Val.(*ssa.Convert); ok {
-		if kc, ok := cv.X.(*ssa.Call); ok && ir.IsMethod(kc.Common(), pkgMessage, "ConnectMessage", "KeepAlive") {
-			okv = true
+	// every leaf of the stored value (through conversions and merges) is the
+	// CONNECT's keep-alive or a positive constant (the default), and at least one
+	// leaf is the CONNECT's value
+	okv, fromReq := true, false
+	seen := map[ssa.Value]bool{}
+	var leaf func(v ssa.Value)
+	leaf = func(v ssa.Value) {
+		if seen[v] {
+			return
+		}
+		seen[v] = true
+		switch x := v.(type) {
+		case *ssa.Convert:
+			leaf(x.X)
+		case *ssa.ChangeType:
+			leaf(x.X)
+		case *ssa.Phi:
+			for _, e := range x.Edges {
+				leaf(e)
+			}
+		case *ssa.Const:
+			k, _ := constant.Int64Val(constant.ToInt(x.Value))
+			if x.Value == nil || k <= 0 {
+				okv = false
+			}
+		case *ssa.Call:
+			if ir.IsMethod(x.Common(), pkgMessage, "ConnectMessage", "KeepAlive") {
+				fromReq = true
+			} else {
+				okv = false
+			}
+		default:
+			okv = false
 		}
 	}
+	leaf(kaStore.Val)
+	okv = okv && fromReq
 	c.R.Check(okv, ruleP8, "accept:service-keepalive-from-CONNECT", c.P.InstrPos(kaStore), "svc.keepAlive = int(req.KeepAlive())", "the keep-alive stored in the service is not the CONNECT's keep-alive value")
 	isStore := func(n paths.Node) bool { return n.Instr == ssa.Instruction(kaStore) }
 	if p := reach(g, []paths.Node{g.Entry()}, setDefault, isStore, Assume{"eq:ConnectMessage.KeepAlive:0": true}); p != nil {
